@@ -755,7 +755,8 @@ func main() {
 		h.runBatch(w, schema, routes, "route-grid")
 		h.runBatch(w, schema, nego, "accept-query-grid")
 		h.runBatch(w, schema, acceptSequenceRequests(r, &w, run.Scale(60, 150)), "accept-sequences")
-		h.runBatch(w, schema, charclassRequests(r.Fork(), &w, wi%charclassParts, charclassParts), "charclass-probes")
+		ccParts := run.Scale(charclassParts, 3*charclassParts) // quick: the whole family once per run; thorough: ten times
+		h.runBatch(w, schema, charclassRequests(r.Fork(), &w, wi%ccParts, ccParts), "charclass-probes")
 		var reqs []ReqSpec
 		for i := 0; i < randomPer; i++ {
 			reqs = append(reqs, genRequest(r.Fork(), &w))
